@@ -10,7 +10,9 @@ FF_GRID = [0, 1, 14, 15, 29]
 FRAC_GRID = [[5], [0], [0, 0, 1], [0, 0, 0, 5], [3], [2, 9], [1, 2, 3, 4], [9, 9, 9, 9, 9, 9, 9],
              [0, 0, 0, 0, 0, 0, 1], [1, 2, 3, 4, 5, 6, 7, 8, 9], [9] * 12, [0] * 6 + [9], [3] * 20, [1, 0, 0]]
 WORDS = ["hello", "world", "caption", "The quick", "brown fox", "it's", "100%", "naïve", "♪", "[music]",
-         "- hi", "42", "x", "a b c", "Olá", "7 up"]
+         "- hi", "42", "x", "a b c", "Olá", "7 up",
+         # characters str.splitlines() cuts at but the readers (utils.split_lines) must not: inside a text line
+         "a\x0bb", "n\x85l", "l\u2028s", "p\u2029s", "f\x0cf", "f\x1cs"]
 FPS_GRID = [None, None, (0, 25, []), (0, 23, [9, 7, 6]), (0, 29, [9, 7]), (0, 30, []), (0, 24, []), (0, 50, []),
             (0, 60, []), (0, 25, [0]), (0, 29, [9, 7, 0]), (1, 25, []), (0, 12, [5]), (0, 15, []), (0, 0, [5]),
             (0, 119, [8, 8]), (0, 1, [])]
@@ -68,10 +70,35 @@ def gen_hms_seq(rng, n, big=0.3):
     return res
 
 
+def gen_count(rng):
+    """1-6 cues, now and then a long document"""
+    return rng.choice([60, 150, 300]) if rng.random() < 0.004 else rng.randint(1, 6)
+
+
+def disorder(rng, ts, n):
+    """2n instants for n cues: sorted and non-overlapping, or (35%) overlapping / out of order / end before start -
+    the readers must keep document order and the written instants whatever they are"""
+    if rng.random() < 0.65:
+        return ts, "sorted"
+    ts = list(ts)
+    k = rng.random()
+    if k < 0.4:
+        pairs = [(ts[2 * i], ts[2 * i + 1]) for i in range(n)]
+        rng.shuffle(pairs)
+        ts = [t for p in pairs for t in p]
+        return ts, "shuffled"
+    if k < 0.8:
+        rng.shuffle(ts)
+        return ts, "free"
+    for i in range(n - 1):            # every cue runs into the next one
+        ts[2 * i + 1], ts[2 * i + 2] = ts[2 * i + 2], ts[2 * i + 1]
+    return ts, "overlapping"
+
+
 # ---------------- SRT -------------------------------------------------------------------------
 def gen_srt_doc(rng):
-    n = rng.randint(1, 6)
-    ts = gen_hms_seq(rng, n)
+    n = gen_count(rng)
+    ts, _ = disorder(rng, gen_hms_seq(rng, n), n)
     cues = []
     for i in range(n):
         st = []
@@ -98,9 +125,14 @@ def srt_nontrivial(doc):
 VTT_SETTINGS = [None, None, None, "align:start", "position:10%,line-left align:left size:35%", "line:0", "vertical:rl"]
 
 
+VTT_WS = [" ", " ", " ", "\t", "  ", " \t", "\t\t ", "   "]
+VTT_PRE = [[], [], [], ["%d"], ["cue-%d"], ["NOTE a comment", ""], ["NOTE", "two lines", "of comment", "", "%d"],
+           ["STYLE", "::cue { color: lime }", ""], ["stray text without arrow"], ["", ""], ["REGION", "id:r%d", ""]]
+
+
 def gen_vtt_doc(rng):
-    n = rng.randint(1, 6)
-    ts = gen_hms_seq(rng, n)
+    n = gen_count(rng)
+    ts, _ = disorder(rng, gen_hms_seq(rng, n), n)
     cues = []
     for i in range(n):
         st = []
@@ -110,11 +142,11 @@ def gen_vtt_doc(rng):
             else:
                 hh = Some([gen_pad(rng) + (1 if h < 10 else 0), h])
             st.append([hh, m, s, ms])
-        ident = rng.choice([None, None, Some(str(i + 1)), Some("cue-%d" % i)])
+        pre = [l % i if "%d" in l else l for l in rng.choice(VTT_PRE)]
         stg = rng.choice(VTT_SETTINGS)
-        cues.append([ident, st[0], st[1], None if stg is None else Some(stg), gen_lines(rng, 0.01),
-                     rng.choice([0, 0, 0, 1, 2])])
-    strict = rng.random() < 0.5
+        cues.append([pre, st[0], st[1], rng.choice(VTT_WS), rng.choice(VTT_WS), None if stg is None else Some(stg),
+                     gen_lines(rng, 0.01), rng.choice([0, 0, 0, 1, 2])])
+    strict = rng.random() < 0.4
     shift = rng.choice(SHIFT_GRID)
     return [strict, shift, rng.random() < 0.3, cues]
 
@@ -125,6 +157,8 @@ def vtt_nontrivial(doc):
         for t in (c[1], c[2]):
             if t[0] is not None or t[3] != 0 or doc[1] != 0:
                 keys.add((None if t[0] is None else tuple(t[0].v), t[1], t[2], t[3], doc[1]))
+    if len(keys) > 40:
+        keys = set(list(keys)[:40])
     return keys
 
 
@@ -133,9 +167,10 @@ def gen_mdvd_doc(rng):
     fps = rng.choice(FPS_GRID)
     if fps is not None and fps[1] == 0 and not any(fps[2]):
         fps = None
-    n = rng.randint(1, 6)
+    n = gen_count(rng)
     fr = sorted(pick(rng, FRAME_GRID, lambda: rng.randrange(rng.choice([100, 10**4, 10**6, 9 * 10**7])), 0.4)
                 for _ in range(2 * n))
+    fr, _ = disorder(rng, fr, n)
     cues = []
     for i in range(n):
         a, b = fr[2 * i], fr[2 * i + 1]
